@@ -150,6 +150,13 @@ CasesC03(lazy) ==
              @@ ((W \o "/top.yaml") :> File(<<LayerDoc("top", [pk \in {"$parent"} |-> L(<<S("dev/app.web"), S("prod/app.web")>>)])>>)),
               <<"top.yaml">>, FALSE, "/", "samenamesparent",
               Chains(<< <<"dev/app", "dev/app.web", "top">>, <<"prod/app", "prod/app.web", "top">> >>)) : dummy \in {1} }
+  (* a layer read from standard input: no filename inheritance, $parent still works, other inputs around it *)
+  \cup { Case(FsOf(<<Plain("a", 0, 1), Plain("a.b", 0, 2)>>, <<>>) @@ (StdinKey :> File(<<LayerDoc("stdin", t[1])>>)),
+              t[2], FALSE, "/", "stdin", t[3])
+         : t \in { << <<>>, <<"./-.yaml">>, Chains(<< <<"stdin">> >>) >>,
+                    << [pk \in {"$parent"} |-> S("a.b")], <<"./-.json">>, Chains(<< <<"a", "a.b", "stdin">> >>) >>,
+                    << <<>>, <<"a.b.json", "./-.yaml">>, Chains(<< <<"a", "a.b">>, <<"stdin">> >>) >>,
+                    << [pk \in {"$parent"} |-> False], <<"./-.toml">>, Chains(<< <<"stdin">> >>) >> } }
   (* unsupported input extension, missing input *)
   \cup { Case(FsOf(<<Plain("a", 0, 1)>>, <<>>), <<inp>>, FALSE, "/", "badinput", Fails) : inp \in {"a.txt", "b.yaml", "a"} }
 
